@@ -9,13 +9,14 @@ level  := "L" inh sig attrs bufnames buflines "[" node* "]"   (buffered named bl
 inh    := "N" | "S" | "D" | "Z"                 (none, static, dynamic, dynamic evaluating to None)
 sig    := "-" | name ":" (val | "~") { "/" … }   (`<%page args>`; `~` = no default)
 attrs  := "-" | name ":" val { "/" … }
-node   := "t" k | "c" ref name vals kws | "a" ref name | "g"
+node   := "i" k | "t" k | "c" ref name vals kws | "a" ref name | "g"
         | "d" name sig "[" node* "]" | "b" (name | "~") line "[" node* "]" | "x" "[" node* "]"
 ref    := "s" | "n" | "p" | "l"
 name   := comma-separated code points (Wire.decStr);  vals := "-" | v { "," v };  kws := attrs
 ```
 Ops:
 * `render fuel data level*`  → `ok out*` | `exc kind`      (out := `t`k | `v`v | `g`bound`|`extra)
+* `renderlib depth fuel data ("C" level*)*` → as `render`, for entry 0 of a library of chains; `"i" k` includes entry k
 * `check "[" node* "]"`      → `ok` | sorted fault tokens (`dup:`name, `anon:`line, `indef:`name, `incall:`name)
 * `build level*`             → `ok callableTmpl callableCtx ns* ; ctx*` | `exc kind`
 * `attrs ops level*`         → one answer per op of `ops` (`g:`j`:`name = getattr with memo threaded through,
@@ -69,6 +70,13 @@ def parseNodes : Nat → List String → Option (List Node × List String)
         let k ← k.toNat?
         let (ns, r) ← parseNodes f rest
         pure (.text k :: ns, r)
+      | _ => none
+    else if tok == "i" then
+      match rest with
+      | k :: rest => do
+        let k ← k.toNat?
+        let (ns, r) ← parseNodes f rest
+        pure (.incl k :: ns, r)
       | _ => none
     else if tok == "g" then do
       let (ns, r) ← parseNodes f rest
@@ -185,11 +193,27 @@ def runOps (c : List Level) : Heap → List String → Option (List String)
       else none
     | _ => none
 
+/-- the runs of fields between occurrences of the token `t` -/
+def splitOnTok (t : String) : List String → List (List String)
+  | [] => [[]]
+  | x :: r =>
+    match splitOnTok t r with
+    | [] => [[]]
+    | g :: gs => if x == t then [] :: g :: gs else (x :: g) :: gs
+
 def handle : Handler
   | "render" :: fuel :: data :: rest => do
     let fuel ← fuel.toNat?; let data ← decKws data
     let c ← parseLevels (rest.length + 1) rest
     match render c fuel data with
+    | .ok out => pure (" ".intercalate ("ok" :: out.map encOut))
+    | .error e => pure ("exc " ++ encExc e)
+  | "renderlib" :: depth :: fuel :: data :: rest => do
+    let depth ← depth.toNat?; let fuel ← fuel.toNat?; let data ← decKws data
+    -- the chains of the library, each introduced by the token "C"
+    let groups := (splitOnTok "C" rest).filter (fun g => !g.isEmpty)
+    let lib ← groups.mapM (fun g => parseLevels (g.length + 1) g)
+    match renderTop lib depth fuel data with
     | .ok out => pure (" ".intercalate ("ok" :: out.map encOut))
     | .error e => pure ("exc " ++ encExc e)
   | "check" :: "[" :: rest => do
